@@ -1065,6 +1065,19 @@ func (h *H) Crash(mode string, n int) string {
 	if err != nil {
 		return "err:image:" + strings.ReplaceAll(err.Error(), " ", "_")
 	}
+	if mode == "fieldstmp" {
+		// the crash came while the shard's field set was being saved: a partly written
+		// fields.idx.tmp is left next to fields.idx
+		shardDir := filepath.Join(img, "data", DB, RP, fmt.Sprint(ShardID))
+		junk := make([]byte, 1+n%60)
+		for i := range junk {
+			junk[i] = byte(n>>uint(i%8)) ^ byte(i)
+		}
+		if err := os.WriteFile(filepath.Join(shardDir, "fields.idx.tmp"), junk, 0o644); err != nil {
+			return "err:image:" + strings.ReplaceAll(err.Error(), " ", "_")
+		}
+		return h.switchTo(img)
+	}
 	if mode != "clean" {
 		if w := newestWAL(img); w != "" {
 			var tail []byte
